@@ -348,20 +348,24 @@ impl std::fmt::Debug for Zp {
     }
 }
 
-pub const N_ZST: usize = 16;
+pub const N_ZST: usize = 22;
 fn run_zst(k: usize) -> Vec<String> {
     use std::sync::atomic::Ordering::SeqCst;
     use triomphe::{ArcUnion, OffsetArc};
     use unsize::{CoerceUnsize, Coercion};
+    // expected number of values created (the original and each clone the path must make), where the path fixes it
+    let want_made: [usize; 22] = [1, 1, 1, 1, 1, 1, 2, 2, 2, 1, 1, 1, 1, 1, 1, 1, 1, 1, 1, 1, 2, 1];
     let names = ["new / drop", "clone / drop both", "try_unwrap (sole owner)", "try_unwrap (shared)", "UniqueArc::into_inner", "unwrap_or_clone (sole owner)",
                  "unwrap_or_clone (shared)", "make_mut (shared)", "make_unique (shared)", "from Box", "Default", "OffsetArc round trip and clone_arc",
-                 "ArcUnion second variant, clone", "unsized to dyn Debug", "new_uninit / write / assume_init", "into_raw / from_raw, borrow_arc().clone_arc()"];
+                 "ArcUnion second variant, clone", "unsized to dyn Debug", "new_uninit / write / assume_init", "into_raw / from_raw, borrow_arc().clone_arc()", "get_mut on a shared handle", "try_unique on a shared handle",
+                 "is_unique shared / sole", "get_mut and try_unique on a sole owner", "OffsetArc::make_mut (shared)", "deprecated Arc::write on a shared handle"];
     let tag = format!("zero-sized payload with a destructor through: {}", names[(k - 1) % names.len()]);
     alloc::reset();
     ev::LOG.clear();
     ZP_DROPS.store(0, SeqCst);
     ZP_MADE.store(0, SeqCst);
     let mut errs = vec![];
+    let gate: std::cell::RefCell<Vec<&'static str>> = std::cell::RefCell::new(Vec::with_capacity(4));
     alloc::track(true);
     let r = catch_unwind(AssertUnwindSafe(|| match k {
         1 => drop(Arc::new(Zp::mk())),
@@ -392,6 +396,9 @@ fn run_zst(k: usize) -> Vec<String> {
             let mut a = Arc::new(Zp::mk());
             let b = a.clone();
             let _ = Arc::make_mut(&mut a);
+            if Arc::ptr_eq(&a, &b) || Arc::count(&a) != 1 || Arc::count(&b) != 1 {
+                gate.borrow_mut().push("make_mut on a shared handle left it on the shared allocation");
+            }
             drop(b);
             drop(a);
         }
@@ -399,6 +406,9 @@ fn run_zst(k: usize) -> Vec<String> {
             let mut a = Arc::new(Zp::mk());
             let b = a.clone();
             let _ = Arc::make_unique(&mut a);
+            if Arc::ptr_eq(&a, &b) || Arc::count(&a) != 1 || Arc::count(&b) != 1 {
+                gate.borrow_mut().push("make_unique on a shared handle left it on the shared allocation");
+            }
             drop(a);
             drop(b);
         }
@@ -429,19 +439,87 @@ fn run_zst(k: usize) -> Vec<String> {
             u.write(Zp::mk());
             drop(unsafe { UniqueArc::assume_init(u) }.shareable())
         }
-        _ => {
+        16 => {
             let a = Arc::new(Zp::mk());
             let c = a.borrow_arc().clone_arc();
             let p = Arc::into_raw(a);
             drop(unsafe { Arc::from_raw(p) });
             drop(c);
         }
+        17 => {
+            let mut a = Arc::new(Zp::mk());
+            let b = a.clone();
+            if Arc::get_mut(&mut a).is_some() {
+                gate.borrow_mut().push("get_mut granted access although another owner exists");
+            }
+            drop((a, b));
+        }
+        18 => {
+            let a = Arc::new(Zp::mk());
+            let b = a.clone();
+            match Arc::try_unique(a) {
+                Ok(_) => gate.borrow_mut().push("try_unique succeeded although another owner exists"),
+                Err(a) => drop(a),
+            }
+            drop(b);
+        }
+        19 => {
+            let a = Arc::new(Zp::mk());
+            let b = a.clone();
+            if a.is_unique() {
+                gate.borrow_mut().push("is_unique is true although another owner exists");
+            }
+            drop(b);
+            if !a.is_unique() {
+                gate.borrow_mut().push("is_unique is false for the only owner");
+            }
+        }
+        20 => {
+            let mut a = Arc::new(Zp::mk());
+            if Arc::get_mut(&mut a).is_none() {
+                gate.borrow_mut().push("get_mut refused the only owner");
+            }
+            if Arc::try_unique(a).is_err() {
+                gate.borrow_mut().push("try_unique refused the only owner");
+            }
+        }
+        21 => {
+            let mut o = Arc::into_raw_offset(Arc::new(Zp::mk()));
+            let p = o.clone();
+            let _ = o.make_mut();
+            let separate = o.with_arc(|x| p.with_arc(|y| !Arc::ptr_eq(x, y)));
+            if !separate {
+                gate.borrow_mut().push("OffsetArc::make_mut on a shared handle left it on the shared allocation");
+            }
+            drop((o, p));
+        }
+        _ => {
+            #[allow(deprecated)]
+            {
+                let mut a: Arc<std::mem::MaybeUninit<Zp>> = Arc::new_uninit();
+                let b = a.clone();
+                let r = catch_unwind(AssertUnwindSafe(|| {
+                    a.write(Zp::mk());
+                }));
+                if r.is_ok() {
+                    gate.borrow_mut().push("the deprecated Arc::write did not panic on a shared handle");
+                    ZP_DROPS.fetch_add(1, SeqCst); // the value written into a MaybeUninit is never destroyed by the crate
+                }
+                drop((a, b));
+            }
+        }
     }));
     alloc::track(false);
     if r.is_err() {
         errs.push(format!("[panicked] {}: the path panicked", tag));
     }
+    for g in gate.borrow().iter() {
+        errs.push(format!("[verdict] {}: {}", tag, g));
+    }
     let (made, drops) = (ZP_MADE.load(SeqCst), ZP_DROPS.load(SeqCst));
+    if made != want_made[(k - 1) % want_made.len()] {
+        errs.push(format!("[ncl] {}: {} value(s) exist(ed) in total, the path creates {} (the original plus the clones it must make)", tag, made, want_made[(k - 1) % want_made.len()]));
+    }
     if made != drops {
         errs.push(format!("[drops] {}: {} value(s) were created (the original and each clone), {} destructor run(s) happened", tag, made, drops));
     }
@@ -495,7 +573,7 @@ pub fn run_case(c: &Value, variant: usize) -> Vec<String> {
             ids.push(e.see().id);
             v.push(e);
         }
-        let up_o = if up == 99 { None } else { Some(up) };
+        let up_o = if up == 99 { None } else if up == 98 { Some(usize::MAX / 2) } else { Some(up) };
         let mk_iter = |v: Vec<E>, lens: Vec<usize>, hints: Vec<(usize, Option<usize>)>| Faulty {
             inner: v.into_iter(), calls: 0, k, lens, len_calls: Cell::new(0), hints, hint_calls: Cell::new(0),
         };
@@ -578,7 +656,7 @@ pub fn run_case(c: &Value, variant: usize) -> Vec<String> {
     let mut foreign_panic = false;
     let mut early: Vec<Ev> = vec![];
     let observed_ok = built.is_ok();
-    let tag = format!("{} a={} k={} l1={} l2={} hint=({},{}) cap={} variant={}", ctor, a, k, l1, l2, lo, if up == 99 { "None".to_string() } else { up.to_string() }, cap, variant);
+    let tag = format!("{} a={} k={} l1={} l2={} hint=({},{}) cap={} variant={}", ctor, a, k, l1, l2, lo, if up == 99 { "None".to_string() } else if up == 98 { "usize::MAX/2".to_string() } else { up.to_string() }, cap, variant);
     match built {
         Ok(b) => {
             // contents must be exactly the input, in order, and the handle a sole owner
